@@ -27,6 +27,9 @@ pub enum MemOp {
     Read(usize, usize),
     Write(usize, Vec<u8>),
     Copy(usize, usize, usize),
+    /// `Memory::get`: the raw address handed to clone / drop / eq and runtime
+    /// functions (only whether it completes is reported)
+    Get(usize),
 }
 
 #[derive(Clone, Debug, PartialEq)]
@@ -69,6 +72,10 @@ pub fn mem_run(ops: &[MemOp]) -> Vec<MemOut> {
             }
             MemOp::Copy(to, from, n) => {
                 mem.verif_copy(*to, *from, *n);
+                MemOut::Unit
+            }
+            MemOp::Get(p) => {
+                let _ = mem.get(*p);
                 MemOut::Unit
             }
         }));
